@@ -102,7 +102,6 @@ def devs (op : String) (how : String) (r0 : Recv) (rm : Recv) (args : List Val) 
     else none
   let d : List (String × Bool) := [
     ("call_undefined_this", how == "C" && r0 == .val .undef),
-    ("primitive_this_boxed", how == "T" && (match r0 with | .val (.str _) => true | .val16 _ => true | _ => false)),
     ("lone_surrogate", loneSurrogate r0),
     ("charAt_surrogate", ((op == "charAt" || op == "index") && optSurr posUnit) || (op == "desc" && optSurr ownUnit)),
     ("case_special", (op == "toLowerCase" && (U value).any (fun u => !isSurr u && Spec.lowerUnit u != [goLower u]))
@@ -202,10 +201,11 @@ def handleSeq (m : String) (rt : String) (as : List String) : String :=
 def handlePair (op : String) (ta tb : String) : String :=
   match recv? ta, recv? tb with
   | some (.val16 a), some (.val16 b) =>
-    let dev := if loneSurrogate (.val16 a) || loneSurrogate (.val16 b) then ["lone_surrogate"] else []
-    let ma := bytesOfUnits a ++ bytesOfUnits b
-    if op == "plus" then reply (.str (U ma)) (.str (a ++ b)) dev
-    else reply (.bool (ma == bytesOfUnits (a ++ b))) (.bool true) dev
+    -- evaluate.go (since fix a08e94f): when an operand is held as []uint16 the code units are concatenated and
+    -- the result is utf16Value(units); === compares the Value.string() of both sides
+    let sum := utf16Value (a ++ b)
+    if op == "plus" then reply (.str sum) (.str (a ++ b)) []
+    else reply (.bool (bytesOfUnits sum == bytesOfUnits (a ++ b))) (.bool true) []
   | _, _ => "bad-op"
 
 def handle (ws : List String) : String :=
@@ -229,8 +229,8 @@ def handle (ws : List String) : String :=
       let nullish := r0 = .val .undef ∨ r0 = .val .null
       -- the `this` value the built-in receives on each side
       let rm? : Option Recv :=
-        if how = "M" then memberThis env r0
-        else if how = "T" then memberThisOverridden env sZZZ r0     -- member call, String.prototype.toString replaced
+        if how = "M" then (if op = "length" ∨ op = "index" then memberThis env r0 else memberCallThis r0)
+        else if how = "T" then memberThisOverridden sZZZ r0         -- member call, String.prototype.toString replaced
         else if how = "C" then some (callThis r0) else some r0
       match rm? with
       | none => reply .throwType .throwType []          -- member access on undefined / null (§11.2.1)
